@@ -961,6 +961,9 @@ class Model:
         env = Env(st, states, mode="summarize", model=self)
         if not e[1] and not st.group:
             raise Reject("ValueError", "empty ungrouped summarize")
+        if any(c not in st.visible for c in st.group):
+            # like group_by itself: grouping columns must be selected
+            raise Reject("ValueError", "grouping column is not selected")
         groups: dict = {}
         for r in st.rows:
             groups.setdefault(tuple(_hashable(r[c]) for c in st.group), []).append(r)
